@@ -455,6 +455,9 @@ class LocalConcurrences:
                                   0, len(self.series2) + 1, False)
         else:
             wp = self._wp
+            # Cells used by earlier matches are negated, make them available again
+            neg = np.logical_and(wp.data < 0, np.isfinite(wp.data))
+            wp.data[neg] = -wp.data[neg]
             if self.window is None:
                 wp.mask = False
             else:
